@@ -77,3 +77,13 @@ def bounded(sess: Session):
         sess.violation_direct('wn.lmf.dump/load:bounded:empty-optional-attribute', '; '.join(k7),
                               {'kind': 'lmf-roundtrip-k7'}, reproduced=True, finding='K7',
                               functions=('wn.lmf.dump', 'wn.lmf.load'))
+    k24 = R.k24_probe()
+    if k24:
+        sess.violation_direct('wn.lmf.dump/load:bounded:preserved-whitespace', '; '.join(k24)[:1500],
+                              {'kind': 'lmf-roundtrip-k24'}, reproduced=not k24[0].startswith('harness'),
+                              finding='K24', functions=('wn.lmf.dump', 'wn.lmf.load'))
+    k19 = R.k19_probe()
+    if k19:
+        sess.violation_direct('wn.lmf.dump/load:bounded:explicit-true', '; '.join(k19)[:1500],
+                              {'kind': 'lmf-roundtrip-k19'}, reproduced=True, finding='K19',
+                              functions=('wn.lmf.dump', 'wn.lmf.load'))
